@@ -10,28 +10,41 @@ from harness.common import Ck, coq_bool, coq_list, coq_str, parse_coq_N_list, pa
 from translate import c16_fgd
 
 MANIFEST = dict(
-    technique='Rocq proof (writer/reader round trip for all strings, codec tables and bit packings, memoisation '
-              'invariant of the lazy database for all query orders) + ast translator + vm_compute correspondence + '
-              'export/parse/export and binary round-trip oracles on the complete bundled database and generated FGDs',
-    text='Theorems in Props/C16.v: for every text, indent and line tail the reader (_handle_string and the "+" '
-         'continuation of _read_colon_list) returns exactly what _write_longstring wrote, the writer never writes '
-         'nothing, keeps every section within LIMIT and never cuts between a backslash and its symbol (extended syntax: '
-         'all texts; plain syntax: texts without ", \\ and CR); VALUE_TYPE_ORDER/FILE_TYPE_ORDER indexes, the '
-         '"index|128" bytes, EntFlags, spawnflag powers, BinStrDict indexes, 16-bit indexes and separator-joined '
-         'lists read back as written; for every query sequence on a fresh lazy database the answers equal those of '
-         'the fully decoded database and the recursive base look-ups terminate. Constants, escape table and the two '
-         'decisive branches of _write_longstring are regenerated from the source on every run and kernel-checked; '
-         'the writer, the reader, the bit packings, BinStrDict and the lazy memo table are compared with the models '
-         'on generated inputs; the whole bundled database and generated FGDs are exported, parsed and exported '
-         'again under all custom_syntax/label_spawnflags variants, serialised to the binary format and back, and '
-         'queried lazily in random orders.',
-    note='The FGD grammar itself (entity headers, helpers, keyvalue/IO lines, choices, spawnflags, tags, snippets, '
-         '@resources) is NOT modelled: search only. Block decoding (ent_unserialise) is a parameter of the lazy model '
-         '(a function of the block bytes); lzma is outside the model. Accepted normalisations of the text form: I/O '
-         'types decay (VALUE_TO_IO_DECAY), empty BOOL default = "0", kv_order is compared as effective order, '
-         'newlines in choice/flag names become spaces, custom_syntax=False drops tags/resources/extension helpers/'
-         'aliasof and cannot represent ", \\ or CR in texts. Trusted: Coq kernel + vm_compute, translate/c16_fgd.py, '
-         'hand models Fmt/LongString.v, Fmt/FgdBin.v, SM/LazyDb.v (tied by correspondence), CPython.',
+    technique='Rocq proof (long-string writer/reader for all strings; token-level writers/parsers of keyvalue, spawnflag, choices, '
+              'I/O lines and @resources blocks for every split of long strings, joined to the character level; codec tables, bit '
+              'packings, whole binary records, blocks, file header and block positions; lazy database = eager database for all query '
+              'orders including what stored base names are replaced by) + fail-closed ast translator (constants, escape table, decisive '
+              'writer branches, I/O skeletons of the (un)serialisers, shape of get_ent/_parse_block/get_fgd) + vm_compute correspondence '
+              '(byte-exact for binary records and blocks of the shipped file; token-exact for text lines) + export/parse/export, binary and '
+              'lazy-loading oracles on the bundled database, generated FGDs and hand-built databases',
+    text='Theorems in Props/C16.v. Text: for every text, indent and line tail the reader (_handle_string and the "+" continuation of '
+         '_read_colon_list) returns exactly what _write_longstring wrote, the writer never writes nothing, keeps every section within LIMIT '
+         'and never cuts between a backslash and its symbol (extended syntax: all texts; plain syntax: texts without ", \\ and CR); at the '
+         'token level every keyvalue line (tags, readonly/report, display name, default present or not, description present or not), '
+         'every spawnflag item (generated [n] label removed again) and choices item, every input/output line and every @resources '
+         'block (undefined / defined-empty / non-empty) that the writers emit is parsed back to the same field values, for every split '
+         'of the long strings into "+" sections, and with display name and description produced by _write_longstring the parser returns '
+         'exactly the two texts; the single-colon and only-non-empty-resources writer variants are refuted. Binary: VALUE_TYPE_ORDER/'
+         'FILE_TYPE_ORDER indexes, "index|128" bytes, EntFlags, spawnflag powers, BinStrDict indexes, 16-bit indexes, separator-joined '
+         'lists; composed into ent_unserialise(ent_serialise(e) ++ rest) = (e, rest) for whole definitions and whole blocks with the '
+         'block dictionary, the file header and the block positions. Lazy: for every query sequence on a fresh database the answers '
+         '(definition AND what every stored base name was replaced by, alias chains across blocks included) equal those of the fully '
+         'loaded database; base look-ups terminate; the ent_map-look-up variant is refuted. The objects the theorems quantify over are '
+         'regenerated from the source on every run and kernel-checked as named instance obligations; all hand models are compared with the '
+         'implementation on generated and shipped data; the whole bundled database and generated FGDs are exported, parsed and exported '
+         'again, serialised to the binary format and back, and queried lazily in random orders.',
+    note='Still search only: entity headers (class kind, base()/aliasof(), helpers), snippets, @MaterialExclusion/@AutoVisgroup, the order of '
+         'lines inside an entity, and the character-level lexing of everything except quoted strings (bare words, punctuation, comments): '
+         'the line models work on the token stream of the real Tokenizer and are tied to KVDef.export/_parse etc. by token-exact '
+         'correspondence (also on mutated token lists), not by a translator-generated core. Value types, tags and numbers are abstract in '
+         'the line theorems; their premises are checked exhaustively on the real tables (data obligations). Block decoding in the lazy model is '
+         'a parameter (a function of the block bytes), lzma is outside the model, compute_ent_strings/build_blocks (how entities are '
+         'grouped into blocks) are not modelled. Accepted normalisations of the text form: I/O types decay (VALUE_TO_IO_DECAY), empty BOOL '
+         'default = "0", yes/no = 1/0, kv_order is compared as effective order, newlines in choice/flag names become spaces, '
+         'custom_syntax=False drops tags/resources/extension helpers/aliasof and cannot represent ", \\ or CR in texts. Quick tier runs the '
+         'bundled database under 2 of the 4 option sets (all 4 in the thorough tier and whenever a tie is broken). Trusted: Coq kernel + '
+         'vm_compute, translate/c16_fgd.py, hand models Fmt/LongString.v, Fmt/FgdBin.v, Fmt/FgdBinEnt.v, Fmt/FgdLine.v, SM/LazyDb.v (tied by '
+         'correspondence), the real Tokenizer as lexer of the line correspondences, CPython.',
 )
 
 IMPORTS = ['Coq.NArith.NArith', 'Coq.Lists.List', 'Coq.Strings.String', 'Coq.Bool.Bool', 'Coq.Arith.Arith', 'SV.Fmt.LongString', 'SV.Fmt.FgdBin', 'SV.Fmt.FgdBinEnt', 'SV.Fmt.FgdLine', 'SV.SM.LazyDb',
@@ -1715,7 +1728,12 @@ def search_lazy(ck: Ck, data: bytes, tb: dict) -> None:
         got_first: dict[str, dict] = {}
         for q in order:
             asked = q.upper() if rng.random() < 0.1 else q       # class names are case-insensitive
-            ent = copy.deepcopy(db.get_ent(asked))               # what EntityDef.engine_def does
+            try:
+                ent = copy.deepcopy(db.get_ent(asked))           # what EntityDef.engine_def does
+            except Exception as ex:   # noqa: BLE001
+                ck.violation('lazy-lookup-raises:' + type(ex).__name__, f'get_ent({asked!r}) after {order.index(q)} other look-ups raises {ex!r}',
+                             {'kind': 'lazy', 'order_prefix': order[:order.index(q) + 1][-20:], 'query': asked})
+                continue
             c = canon_ent(ent)
             ck.count('search_lazy_lookups')
             # bases must be resolved objects whose own definitions equal the eager ones
@@ -1748,19 +1766,115 @@ def search_lazy(ck: Ck, data: bytes, tb: dict) -> None:
         ck.violation('lazy-engine-dbase-after-lookups', f'FGD.engine_dbase() after individual look-ups differs for {bad[:5]}', {'kind': 'lazy', 'entities': bad[:10]})
 
 
+def synth_db(rng: random.Random, shape: str, fixed_blocks: Optional[list[list[str]]] = None) -> tuple[Any, dict[str, list[str]], list[list[str]]]:
+    """A hand-built EngineDB (the real serialisers, a full shared dictionary) whose alias entities point ACROSS blocks:
+    shape `chain` (a -> b -> c, one per block), `cycle` (a <-> b in different blocks), `fan` (several aliases of one target
+    in another block), `mixed`.  Returns the database, the stored base names per class and the block layout."""
+    from srctools import _engine_db as E
+    from srctools.fgd import EntityDef, EntityTypes, KVDef, ValueTypes
+    layouts = {
+        'chain': ([['a'], ['b'], ['c', 'x']], {'a': ['b'], 'b': ['c']}),
+        'cycle': ([['a', 'x'], ['b']], {'a': ['b'], 'b': ['a']}),
+        'fan': ([['a', 'b'], ['t'], ['c']], {'a': ['t'], 'b': ['t'], 'c': ['t']}),
+        'mixed': ([['a', 'p'], ['b', 'q'], ['c']], {'a': ['b', 'q'], 'b': ['c'], 'p': ['a']}),
+    }
+    blocks, bases = layouts[shape]
+    blocks = [list(b) for b in blocks]
+    rng.shuffle(blocks)
+    if fixed_blocks is not None:
+        blocks = [[cn[4:] for cn in b] for b in fixed_blocks]
+    ents: dict[str, Any] = {}
+    for b in blocks:
+        for cn in b:
+            e = EntityDef(EntityTypes.POINT, 'Syn_' + cn, is_alias=cn in bases)
+            e.bases = ['Syn_' + x for x in bases.get(cn, [])]
+            e.keyvalues['kv_' + cn] = {frozenset(): KVDef('kv_' + cn, ValueTypes.INT, 'Disp ' + cn, str(rng.randint(0, 9)))}
+            ents[cn] = e
+    shared = sorted(['', 'Disp a'] + [f'shared{i:03d}' for i in range(E.SHARED_STRINGS - 2)])
+    base_dict = E.BinStrDict(shared, None)
+    unparsed, ent_map = [], {}
+    for bi, b in enumerate(blocks):
+        need: set[str] = set()
+        for cn in b:
+            E.ent_serialise(ents[cn], io.BytesIO(), lambda x, need=need: (need.add(x), b'\0\0')[1])
+        d = E.BinStrDict(need - set(shared), base_dict)
+        f = io.BytesIO()
+        d.serialise(f)
+        for cn in b:
+            E.ent_serialise(ents[cn], f, d)
+            ent_map[('Syn_' + cn).casefold()] = bi
+        unparsed.append((['Syn_' + cn for cn in b], f.getvalue()))
+    ent_map['_cbaseentity_'] = EntityDef(EntityTypes.BASE, '_CBaseEntity_')
+    return E.EngineDB(ent_map, shared, unparsed), {'Syn_' + k: ['Syn_' + x for x in v] for k, v in bases.items()}, \
+        [['Syn_' + cn for cn in b] for b in blocks]
+
+
+def search_lazy_synthetic(ck: Ck) -> None:
+    """Cross-block alias chains, cycles and fans in hand-built databases: every query order on a fresh database must give
+    definitions whose bases are the definition objects of the named classes (and must terminate)."""
+    import sys
+    rng = ck.rng
+    for i in range(ck.budget(120, 1000)):
+        shape = ['chain', 'cycle', 'fan', 'mixed'][i % 4]
+        state = rng.getstate()
+        try:
+            db, bases, blocks = synth_db(rng, shape)
+        except Exception as ex:   # noqa: BLE001
+            ck.violation('binary-serialise-raises', f'building a synthetic database raises {type(ex).__name__}: {ex}', {'kind': 'binary'})
+            continue
+        names = [cn for b in blocks for cn in b]
+        order = [rng.choice(names) for _ in range(rng.randint(1, 6))]
+        ck.count('search_lazy_synthetic')
+        ck.hist('lazy_synthetic_shape', shape)
+        ck.seen(('lazysyn', shape, tuple(order), tuple(map(tuple, blocks))))
+        replay = {'kind': 'lazy_synthetic', 'shape': shape, 'blocks': blocks, 'order': order}
+        old = sys.getrecursionlimit()
+        sys.setrecursionlimit(400)
+        try:
+            for q in order:
+                ent = db.get_ent(q.upper() if rng.random() < 0.2 else q)
+                want = bases.get(q, [])
+                got = [b for b in ent.bases if getattr(b, 'classname', b) != '_CBaseEntity_']
+                if any(isinstance(b, str) for b in got):
+                    ck.violation('lazy-base-unresolved', f'get_ent({q!r}) on a hand-built database ({shape}: {blocks}) after {order[:order.index(q)]} '
+                                 f'returned a definition whose base {[b for b in got if isinstance(b, str)]} is still a name', replay)
+                elif [b.classname for b in got] != want or any(('kv_' + b.classname[4:]) not in b.keyvalues for b in got):
+                    ck.violation('lazy-base-differs', f'get_ent({q!r}) on a hand-built database ({shape}): bases {[b.classname for b in got]}, stored {want}', replay)
+                if ent.classname != q or ('kv_' + q[4:]) not in ent.keyvalues:
+                    ck.violation('lazy-differs-from-eager:classname+keyvalues', f'get_ent({q!r}) returned {ent.classname} with keyvalues {list(ent.keyvalues)}', replay)
+        except RecursionError:
+            ck.violation('lazy-base-lookups-do-not-terminate', f'get_ent on a hand-built database ({shape}: {blocks}) with queries {order} recurses without end',
+                         replay)
+        except Exception as ex:   # noqa: BLE001
+            ck.violation('lazy-lookup-raises:' + type(ex).__name__, f'get_ent on a hand-built database ({shape}) with queries {order}: {ex}', replay)
+        finally:
+            sys.setrecursionlimit(old)
+        del state
+
+
 # =============================================================================================== main
 def run(ck: Ck) -> None:
     ck.rule = ('long strings: texts built from words, escapes and runs without spaces with lengths around multiples of LIMIT and an '
                'escape placed at the cut, distinct by (syntax, text), non-trivial = needs escaping or splitting; generated FGDs: 1-4 '
                'entities with every value type, empty/long texts, tagged duplicates, aliases, helpers, resources, distinct by content, '
                'non-trivial = has keyvalues; bundled database: all entities x 4 option sets; binary: the whole database plus generated '
-               'engine-style entities; lazy: random permutations/samples of classes (aliases always included) on fresh databases, '
-               'non-trivial = more than one query')
-    ck.trusted.append('hand-written models Fmt/LongString.v, Fmt/FgdBin.v, SM/LazyDb.v (tied by differential correspondence on every run)')
-    ck.trusted.append('the FGD grammar (EntityDef.parse/KVDef._parse/export) is outside every model: covered by search only')
+               'engine-style entities; binary records: generated engine-style definitions (byte-exact) and blocks of the shipped file; text '
+               'lines: generated keyvalue / IO lines and @resources blocks (every value type, tags, long strings rare) as token lists, each also '
+               'with 1-2 random token mutations, non-trivial = more than 6 tokens; lazy: random permutations/samples of classes (aliases '
+               'always included, cross-block aliases first) on fresh databases and hand-built databases with cross-block alias chains, '
+               'cycles and fans, non-trivial = more than one query')
+    ck.trusted.append('hand-written models Fmt/LongString.v, Fmt/FgdBin.v, Fmt/FgdBinEnt.v, Fmt/FgdLine.v, SM/LazyDb.v (tied by differential '
+                      'correspondence on every run; decisive branches and layouts read from the source by the translator)')
+    ck.trusted.append('srctools.tokenizer.Tokenizer as the lexer of the text-line correspondences (only quoted strings are modelled at character level)')
+    ck.trusted.append('entity headers, helpers, snippets and the order of lines inside an entity are outside every model: covered by search only')
     ck.assumptions += [
         'ent_unserialise is a function of the block bytes and the immutable shared strings (parameter `decode` of c16_lazy_equals_eager)',
         'lzma.compress/decompress are inverse (outside the model)',
+        'line theorems: value types, tags and numbers are abstract; premises vt_lookup(vt_text v) = (false, v), io_lookup(io_text v) = decay v, '
+        'rt_lookup(rt_text t) = t, tags in read_tags normal form are checked on the real tables (data obligations); casefold on the keywords '
+        'readonly/report/yes/no/@resources is modelled as ASCII lower-casing',
+        'binary record theorem: spawnflag masks are powers of two below 2^128, SPAWNFLAGS keyvalues carry no default and other keyvalues no '
+        'flag list (what the parser produces); the format does not carry descriptions, helpers, keyvalue tags, kv_order, reportable',
         'custom_syntax=False cannot represent ", \\ and CR in texts, nor tags/resources/extension helpers/aliasof (documented loss)',
         'accepted normalisations: I/O type decay, empty BOOL default = "0", effective keyvalue order, newline -> space in choice/flag names',
     ]
@@ -1825,6 +1939,7 @@ def run(ck: Ck) -> None:
     search_generated(ck)
     search_binary(ck, data)
     search_lazy(ck, data, tb)
+    search_lazy_synthetic(ck)
     keys = {v['key'] for v in ck.violations}
     # Failed obligations are explained by a concrete violation of the same mechanism (with a replayable input).
     if any(k.startswith('longstring:empty-text') or k.startswith('bundled-db-export-unparseable:empty-display-name') for k in keys):
@@ -1875,6 +1990,20 @@ def replay(data: dict) -> int:
         except Exception as e:   # noqa: BLE001
             print('parse error:', e)
         return 1
+    if kind == 'lazy_synthetic':
+        db, bases, blocks = synth_db(random.Random(0), r['shape'], r['blocks'])
+        print('blocks:', blocks, ' stored bases:', bases)
+        bad = 0
+        try:
+            for q in r['order']:
+                ent = db.get_ent(q)
+                got = [b if isinstance(b, str) else f'<EntityDef {b.classname}>' for b in ent.bases]
+                print(f'get_ent({q!r}).bases = {got}')
+                bad += any(isinstance(b, str) for b in ent.bases)
+        except RecursionError:
+            print('RecursionError: the base look-ups do not terminate')
+            bad += 1
+        return 1 if bad else 0
     if kind == 'bundled':
         from srctools.fgd import FGD
         res = roundtrip_fgd(FGD.engine_dbase(), r['opts'])
